@@ -61,10 +61,39 @@ let parse_op (s : string) : op =
               (List.filter (fun x -> x <> "") (String.split_on_char ',' (String.sub s 2 (String.length s - 2)))))
   else B (parse_bop s)
 
+let show_outs outs =
+  if outs = [] then "-" else String.concat "," (List.map (fun n -> string_of_int (int_of_nat n)) outs)
+let b01 b = if b then "1" else "0"
+
+(* usage: source_driver            -> observe (the tie)
+          source_driver classify   -> "<reason 0..4> <aligned 0/1> <enc layout>|none <depth>|-"  (basic ops only)
+          source_driver block      -> case "pre-ops... p:<block>": "<start 0/1> <linebal 0/1> <charbal 0/1>" or PANIC *)
 let () =
+  let mode = if Array.length Sys.argv > 1 then Sys.argv.(1) else "observe" in
   Util.iter_lines (fun l ->
-      match observe (List.map parse_op (Util.split_ws l)) with
-      | None -> "PANIC"
-      | Some (buf, outs) ->
-         encode buf ^ " " ^
-           (if outs = [] then "-" else String.concat "," (List.map (fun n -> string_of_int (int_of_nat n)) outs)))
+      let toks = Util.split_ws l in
+      match mode with
+      | "classify" ->
+         let ops = List.map parse_bop toks in
+         let ((reason, aligned), spec) = classify ops in
+         string_of_int (int_of_nat reason) ^ " " ^ b01 aligned ^ " " ^
+           (match spec with
+            | None -> "none -"
+            | Some (t, d) -> (let e = encode t in if e = "" then "\\e" else e) ^ " " ^ string_of_int (int_of_nat d))
+      | "block" ->
+         let ops = List.map parse_bop toks in
+         let rec split_last = function
+           | [] -> failwith "empty"
+           | [x] -> ([], x)
+           | x :: r -> let (a, b) = split_last r in (x :: a, b) in
+         let (pre, last) = split_last ops in
+         (match last with
+          | Push f ->
+             (match classify_block pre f with
+              | None -> "PANIC"
+              | Some ((s, lb), cb) -> b01 s ^ " " ^ b01 lb ^ " " ^ b01 cb)
+          | _ -> failwith "last op must be p:")
+      | _ ->
+         match observe (List.map parse_op toks) with
+         | None -> "PANIC"
+         | Some (buf, outs) -> encode buf ^ " " ^ show_outs outs)
